@@ -332,3 +332,11 @@ def bump(ctx):
                 'used outpoints are collected as `%s`; the UTXO list carries (txid hex string, integer output_n)' % norm(cur[0].value), cur[0],
                 'the exclusion never matches: an outpoint already in the transaction is added a second time')
     ctx.require("(u['txid'], u['output_n']) not in current_inputs" in norm(flt[0].value), q, 'candidate UTXOs are not filtered against the used outpoints', flt[0])
+
+
+@PROP.obligation('C07.defaults')
+def api_defaults(ctx):
+    """Defaults of the parameters that decide this property for callers who do not pass them: only confirmed outputs are selected by default."""
+    from .common_defaults import defaults as run
+    n = run(ctx, [('wallets:Wallet.select_inputs', 'min_confirms', '1'), ('wallets:Wallet.transaction_create', 'min_confirms', '1'), ('wallets:Wallet.send', 'min_confirms', '1'), ('wallets:Wallet.send_to', 'min_confirms', '1'), ('wallets:Wallet.sweep', 'min_confirms', '1'), ('wallets:Wallet.transaction_create', 'replace_by_fee', 'False')], 'unconfirmed outputs are spent by default')
+    ctx.floor(n, 5, 'parameter defaults')
